@@ -169,3 +169,9 @@ def bytes_lua(rng, nlines=12, crlf=False):
         else:
             out.append(rng.choice(_NAMES[:10]) + b'=' + rng.choice(_CALLS) + b'(%d)' % rng.randrange(99))
     return eol.join(out) + eol
+
+
+def one_line(rng):
+    """One complete single-line statement (with its line break)."""
+    return (rng.choice(_NAMES[:10]) + b'=' + rng.choice((b'%d' % rng.randrange(300), rng.choice(_CALLS) + b'(%d)' % rng.randrange(99),
+                                                       b'"s%d"' % rng.randrange(99), b'{1,2}'))) + b'\n'
